@@ -269,8 +269,10 @@ class GeometryScenario(BaseScenario):
         n = len(order)
         dkind = r.choice(DKINDS)
         mode = r.choices(["exact", "short", "long"], [6, 2, 2])[0]
-        if n == 0:
+        if n == 0 and (dkind == "text" or assoc != "CELL"):
             return "skipped"
+        if n == 0:
+            mode = "long"        # an object that lost all its cells: any non-empty cell array is too long
         length = n
         if mode == "short" and n > 1 and dkind in FILL and dkind != "referenced":
             length = r.randrange(1, n)
@@ -377,7 +379,9 @@ class GeometryScenario(BaseScenario):
             idx = [0, n - 1] if n > 2 else [0]
         gone = {obj.vtags[i] for i in set(idx)}
         if obj.ctags and all(any(t in gone for t in obj.cells[ct]) for ct in obj.ctags):
-            return "skipped"    # would leave an object without cells: zero-length arrays are outside this property's quantifier
+            if style != "all_but_one":
+                return "skipped"    # would leave an object without cells
+            sim.probe("no_cells_left")     # "all but one" vertices removed: every cell goes with them (n_cells = 0 from here on)
         as_list = r.random() < 0.5
         ent = self.ent(ws, obj)
         try:
